@@ -17,7 +17,7 @@ IsEvent(e) == l <= Len(Rec) /\ Rec[l].ev = e /\ l' = l + 1
 TReset ==
   /\ IsEvent("reset")
   /\ route' = <<>> /\ phase' = "idle" /\ pos' = 0 /\ tainted' = FALSE
-  /\ fail' = [k |-> 0, code |-> 0] /\ wrapped' = 0 /\ holds' = <<>>
+  /\ fail' = NoFail /\ wrapped' = 0 /\ holds' = <<>>
 
 \* the engine could not turn the script's size classes into concrete values: nothing ran
 TSkip == IsEvent("skip") /\ phase = "idle" /\ UNCHANGED ovars
@@ -25,7 +25,8 @@ TSkip == IsEvent("skip") /\ phase = "idle" /\ UNCHANGED ovars
 TBuild == IsEvent("build") /\ Build(Rec[l].hops, Rec[l].ok, Rec[l].pkt_len)
 TCorrupt == IsEvent("corrupt") /\ Corrupt(Rec[l].before, Rec[l].field)
 TPeel == IsEvent("peel") /\ Peel(Rec[l].hop, Rec[l])
-TFail == IsEvent("fail") /\ FailAt(Rec[l].hop, Rec[l].code, Rec[l].hold)
+\* `head` = the first min(dlen, HeadLen) bytes of the failure data the hop put into its message
+TFail == IsEvent("fail") /\ FailAt(Rec[l].hop, Rec[l].code, Rec[l].hold, Rec[l].dlen, Rec[l].head)
 TWrap == IsEvent("wrap") /\ WrapBack(Rec[l].hop, Rec[l].hold)
 TAttr == IsEvent("attr") /\ Attribute(Rec[l])
 TFulfill == IsEvent("fulfill") /\ FulfillAt(Rec[l].hop, Rec[l].hold)
